@@ -397,7 +397,7 @@ func (c *Chain) subSnapshot() map[int64]*subSnap {
 		x := &subSnap{id: id, owner: sa.Owner, addr: sa.Address, dep: sa.Balance.DepositedAmount.BigInt(), spent: sa.Balance.SpentAmount.BigInt(),
 			wd: sa.Balance.WithdrawnAmount.BigInt(), lost: sa.Balance.LostAmount.BigInt(), locks: map[uint64]*big.Int{}}
 		x.bal = c.Bal(sdkAcc(sa.Address)).BigInt()
-		for _, lb := range sa.LockedBalances {
+		for _, lb := range c.allLocks(sa.Address) {
 			x.locks[lb.UnlockTS] = lb.Amount.BigInt()
 		}
 		r[id] = x
